@@ -331,3 +331,28 @@ CHECKS["C15"] = dict(
           "at least one transformed extent >= 2. Outcome classes: correct | rejected (assertion in boost/multi) | violation."),
     assumptions=["FFTW3 with FFTW_ESTIMATE is the environment", "operands are array_ref views inside guarded stores (owning fftw::array cannot carry guards; same base()/layout() path)", "g++ 12 -O0 ASan+UBSan, assertions enabled"],
 )
+
+CHECKS["C13"] = dict(
+    title="BLAS adaptor", level="exploration", engine="E4",
+    claim=("Complete configuration grid over the BLAS adaptor: gemm (in-place, assigned/added lazy range, new array), gemv, dot (three forms), axpy, scal, copy, swap, nrm2, asum, iamax, herk, syrk, trsm (side x fill x diag) x element "
+           "types (quick: double, complex<double>; thorough: all four) x per-operand layout variants (plain, transposed storage, padded sub-block, padded sub-block of transposed storage, conjugated / hermitised of each, also as "
+           "output; vectors: unit stride, stride 2, matrix column) x ALL sizes with m,k,n in {0,1,2} (thorough {0..3}) x scalars {0,1,2} (+ i, 1+2i for complex), on exactly representable integer data so the naive reference is exact "
+           "and the comparison is ==. Each configuration: output equals the reference, inputs unchanged, all guard/padding cells of every store unchanged; outcomes correct | rejected (exception or assertion in boost/multi) | violation."),
+    jobs=lambda tier: sharded("blasmc", tier, libs=["-lopenblas"]),
+    rule=("flat enumeration, see notes/C13.md for the grid and counts (quick 1.6e6, thorough 4.0e6 configurations); a failed library assertion is intercepted inside the child (__assert_fail interposed) and counted as 'rejected' iff it is "
+          "located under include/boost/multi; violation key = operation form | element type | layout class of each operand | size class per dimension | scalar class | coarse symptom. distinct_nontrivial = configurations with all sizes >= 1."),
+    assumptions=["OpenBLAS is the environment (OPENBLAS_NUM_THREADS=1)", "forms that do not instantiate on this tree (gemm on complex<float>, iamax without NDEBUG, ...) are excluded at compile time and listed in a run note",
+                 "the several thousand failing classes of the unchanged tree reduce to five root causes (notes/C13.md) and are listed in known_findings_C13.json"],
+)
+
+CHECKS["C18"] = dict(
+    title="MPI messages", level="model_checking", engine="E1",
+    claim=("Every E1 view state (depth 2 quick / 3 thorough, array_ref roots D=1..4, int and double) is turned into the adaptor's (buffer, count, datatype) messages (message(elements), skeleton(layout), message(base, skeleton), "
+           "datatype(), create_subarray, data(begin) with count 1); each is MPI_Pack-ed on MPI_COMM_SELF and the packed bytes are compared with the model's canonical-order element sequence (count, order, nothing else); for ordered "
+           "pairs (source state, destination state of another root) with equal element counts the packed source is MPI_Unpack-ed through the destination message and the destination's WHOLE guard buffer is compared with "
+           "'k-th canonical element <- k-th canonical element', source and bystander stores unchanged. A PMPI ledger (MPI_Type_* and MPI_Pack/Unpack interposed) checks committed-before-use, freed exactly once, no leak when the message dies."),
+    jobs=lambda tier: sharded("mpimc", tier, cxx="mpicxx"),
+    rule=("E1 breadth-first search supplies the states (same alphabet as C01); single-state probes for every state, pair probes for every source and destination state of an element-count class with the pair product capped per class "
+          "(cap reported in the notes of the run: 24 quick / 48 thorough; every state still takes part); each batch runs in a forked child (singleton MPI_Init, no mpiexec). distinct_nontrivial = configurations with >= 2 elements."),
+    assumptions=["Open MPI is the environment; messages are checked through MPI_Pack/MPI_Unpack on MPI_COMM_SELF (no second process)", "read-only view types are used only as sources", "mpicxx (g++ 12) -O0 ASan+UBSan, assertions enabled"],
+)
